@@ -13,7 +13,7 @@ RULE = (
     'cases: random non-negative density grids (2-8 voxels per axis, unequal axes) with integer counts, float '
     'densities, heavy-tailed counts up to 1e9, 0-95 % unvisited voxels, down to a single visited voxel (p = 1); '
     'temperatures log-uniform in [1e-3, 1e6] K (kT from 1e-7 to 86 eV); default and explicit graph thresholds; half of the volumes come '
-    'from the real trajectory_to_volume.  Oracle: direct formulas with the exact SI value of k_B in eV/K, all '
+    'from the real trajectory_to_volume; density arrays in C order, Fortran order, as transposed / axis-swapped / strided / reversed views, dtypes int64 / int32 / float32 / float64.  Oracle: direct formulas with the exact SI value of k_B in eV/K, all '
     'voxel pairs for monotonicity (via sorting).  Non-trivial = at least 2 visited and 1 unvisited voxel; distinct '
     '= SHA-1 of (grid, temperature).'
 )
@@ -76,6 +76,23 @@ def run_unit(unit, rng, ctx):
             data = data.astype(dt_)
             if not data.any():
                 data[tuple(int(rng.integers(s_)) for s_ in data.shape)] = 1
+        # memory layout: C order, Fortran order, transposed / axis-swapped views, strided and reversed views
+        layout = str(rng.choice(['C', 'C', 'F', 'T', 'swap', 'stride', 'rev']))
+        if layout == 'F':
+            data = np.asfortranarray(data)
+        elif layout == 'T':
+            data = np.ascontiguousarray(data.T).T
+        elif layout == 'swap':
+            ax = [int(x) for x in rng.permutation(3)]
+            data = np.ascontiguousarray(np.transpose(data, np.argsort(ax))).transpose(ax)
+        elif layout == 'stride':
+            big = np.zeros(tuple(2 * s_ for s_ in data.shape), dtype=data.dtype)
+            big[::2, ::2, ::2] = data
+            data = big[::2, ::2, ::2]
+        elif layout == 'rev':
+            data = np.ascontiguousarray(data[::-1, :, ::-1])[::-1, :, ::-1]
+        ctx.count(f'memory_layout:{layout}')
+        ctx.count('non_C_contiguous_density', not data.flags['C_CONTIGUOUS'])
         vol = Volume(data=data, lattice=Lattice(m))
     temp = float(np.exp(rng.uniform(np.log(1e-3), np.log(1e6))))
     what = f'grid {data.shape} mode={mode} T={temp:.4g} K'
